@@ -14,16 +14,19 @@ REGISTRATION = {
             "GetManifestPath, GetBlobsPath), blob.ParseDigest / nameToPath / manifestPath / GetFile and the registry "
             "client's extended-name splitting: accepted parts are safe path components, derived manifest/blob paths "
             "are confined under the models directory at fixed depth, print/parse round trips, cross-parser agreement, "
-            "case-fold ⇒ same manifest path in the new cache. Character classes and length limits are regenerated "
+            "case-fold ⇒ same manifest path in the new cache, the two digest validators accept the same language, "
+            "DiskCache.Resolve / the registry client's extended names resolve inside <dir>/manifests at depth 4 "
+            "(C13_rejected_or_confined bundles every entry point). Character classes and length limits are regenerated "
             "from the real isValidPart of both packages (all 1- and 2-byte strings) on every run and re-proved equal "
             "to the model's by `decide`. Model = code is checked exactly on every string of length ≤ 3 (quick) / ≤ 4 "
             "(thorough) over a 16-symbol class alphabet plus structured random names, relative paths and digests, in "
             "five real packages.",
     "design_ref": "DESIGN.md §5 C13",
     "note": COMMON_NOTE + "Modelled, not verified: path/filepath Clean/Join (unix build; own component model, "
-            "differentially tested against the real functions), strings.EqualFold restricted to ASCII (on-disk link "
-            "names are assumed ASCII, which holds for names written through these parsers), fs.Glob's listing is "
-            "taken as given, the models directory is an absolute clean path. Windows separators are out of scope of "
+            "differentially tested against the real functions), strings.EqualFold as a hand matcher that is exact for "
+            "an ASCII left operand against arbitrary bytes (KELVIN SIGN / LONG S included; tied directly and through "
+            "real non-ASCII link files), fs.Glob's listing is taken as given (hypothesis GlobLink: manifests/ + four "
+            "directory entry names), the models directory is an absolute clean path. Windows separators are out of scope of "
             "the executable tie (the theorems show no accepted byte is '\\\\' or ':' outside hosts). The legacy store's "
             "case-insensitive lookup lives in routes.go getExistingName (C04 / F16), not in the path derivation.",
 }
@@ -54,6 +57,17 @@ THEOREMS = [
     "OllamaVerif.C13.manifest_path_confined_cache",
     "OllamaVerif.C13.ext_accepted_fq",
     "OllamaVerif.C13.roundtrip_names_bare_partial",
+    "OllamaVerif.C13.isFQN_eq_cur",
+    "OllamaVerif.C13.roundtrip_names_bare",
+    "OllamaVerif.C13.hexDecode_isSome",
+    "OllamaVerif.C13.digest_validators_agree",
+    "OllamaVerif.C13.digest_rejected_or_confined_cache",
+    "OllamaVerif.C13.names_isValidPart_safe",
+    "OllamaVerif.C13.names_manifestPath_accepts_iff",
+    "OllamaVerif.C13.names_manifestPath_confined",
+    "OllamaVerif.C13.client_manifestPath_confined",
+    "OllamaVerif.C13.cacheResolve_confined",
+    "OllamaVerif.C13.C13_rejected_or_confined",
     "OllamaVerif.Tie.C13.first_sets_match",
     "OllamaVerif.Tie.C13.rest_sets_match",
     "OllamaVerif.Tie.C13.length_limits_match",
@@ -160,7 +174,7 @@ def run(ctx):
     ctx.assumptions += [
         "unix build: path separator '/', filepath.Clean/Join as modelled (differentially tested)",
         "models directory is an absolute, clean path",
-        "on-disk manifest link names are ASCII (strings.EqualFold modelled on ASCII)",
+        "fs.Glob(manifests/*/*/*/*) returns manifests/ + four directory-entry names (GlobLink); link names may be any bytes",
     ]
     return ctx.finish(
         level="proof",
@@ -179,7 +193,7 @@ def run(ctx):
 OPS_OF = {
     "model": {"mname", "mpath", "vpartM"},
     "names": {"nname", "vpartN"},
-    "blob": {"digest", "getfile", "n2p", "mfpath"},
+    "blob": {"digest", "getfile", "n2p", "mfpath", "snd", "resolve", "fold"},
     "server": {"mp", "blobs", "clean", "join"},
     "client": {"ext", "split"},
 }
